@@ -278,6 +278,40 @@ def global_summary(mod, funcs, q: str, name: str, depth: int = 0):
     return ends[0] if all(e == ends[0] for e in ends) else "mixed"
 
 
+def network_arm_as_address(mod, fn: ast.FunctionDef) -> Optional[str]:
+    """`n.contains(x)` for a network x is "every address of x is in n".  A returning path selected by the test that
+    the operand *is a network* (isinstance(.., _BaseNetwork / IPv4Network / ip_network type)) must decide through
+    supernet_of / subnet_of or through both ends of x.  Deciding it from one end (`network_address` alone handed to the
+    address test, or compared alone) is the recognised wrong form: 10.0.0.0/8 has its base address inside 10.0.0.0/16."""
+    from ..core.paths import PathWalker, flat_conds
+
+    try:
+        paths = [p for p in PathWalker(mod, None).paths(fn) if p.kind == "return" and p.value is not None]
+    except OverflowError:
+        return None
+    params = [a.arg for a in fn.args.args if a.arg not in ("self", "cls")]
+    if not params:
+        return None
+    operand = params[0]
+    for p in paths:
+        is_net = False
+        for t, pol in flat_conds(p.conds):
+            if pol and isinstance(t, ast.Call) and dotted(t.func) == "isinstance" and len(t.args) == 2 and "Network" in ast.unparse(t.args[1]) \
+                    and isinstance(strip_cast(t.args[0]), ast.Name) and strip_cast(t.args[0]).id == operand:
+                is_net = True
+        if not is_net:
+            continue
+        text = ast.unparse(p.value)
+        if "supernet_of" in text or "subnet_of" in text:
+            continue
+        ends = {a.attr for a in ast.walk(p.value) if isinstance(a, ast.Attribute) and a.attr in ("network_address", "broadcast_address")
+                and isinstance(strip_cast(a.value), ast.Name) and strip_cast(a.value).id == operand}
+        if ends == {"network_address"} or ends == {"broadcast_address"}:
+            return (f"on the path where the operand is a network the result is `{text[:80]}`: containment is decided from the operand's "
+                    f"{ends.pop()} alone, so a wider network whose base address lies inside (10.0.0.0/8 in 10.0.0.0/16) counts as contained")
+    return None
+
+
 def check_glob(repo: Repo, run: Run, rule: str) -> None:
     """glob(text, pattern) is the shell-pattern relation on the whole text (shared with C19: the translated
     `op: glob` clause relies on it)."""
@@ -497,8 +531,12 @@ def check(repo: Repo, run: Run) -> None:
         run.shape("C17.X4", "size_parse_cidr", "prefixlen" in s and "IntType(" in s, "size_parse_cidr returns the prefix length of a parsed network", c7.loc(sp))
     net = class_methods(c7.cls("IPv4Network")).get("__contains__")
     s = ast.unparse(net) if net else ""
-    run.shape("C17.X4", "IPv4Network.__contains__", "self.supernet_of(other)" in s and "super(IPv4Network, self).__contains__(other)" in s or "super().__contains__(other)" in s,
-           "network containment: a network is contained iff self is its supernet; an address through ipaddress' own test", c7.loc(net) if net else str(c7.path))
+    bad_net = network_arm_as_address(c7, net) if net else None
+    if bad_net:
+        run.ob("C17.X4", "IPv4Network.__contains__", False, bad_net, c7.loc(net))
+    else:
+        run.shape("C17.X4", "IPv4Network.__contains__", "self.supernet_of(other)" in s and "super(IPv4Network, self).__contains__(other)" in s or "super().__contains__(other)" in s,
+                  "network containment: a network is contained iff self is its supernet; an address through ipaddress' own test", c7.loc(net) if net else str(c7.path))
     pc = c7.func("parse_cidr")
     s = ast.unparse(pc)
     run.shape("C17.X4", "parse_cidr", "'/' not in value" in s and "ipaddress.ip_address" in s and "IPv4Network" in s and "v = None" in s,
